@@ -94,6 +94,25 @@ def gen_paths(run, seed, nper, depth, procs=8):
     return paths, gen
 
 
+def gen_cover(run, seed, cap):
+    """Directed generation (GenCover): every scripted prefix x every operation x up to `cap` instances, breadth-first."""
+    cfg = os.path.join(run, "Gen_Cover_%d.cfg" % cap)
+    txt = open(os.path.join(SPEC, "Gen_Cover.cfg")).read()
+    open(cfg, "w").write(re.sub(r"Cap = \d+", "Cap = %d" % cap, txt))
+    rc, out = run_tlc("GenCover.tla", cfg, os.path.join(run, "meta_cover"), extra=["-seed", str(seed * 1000 + 77)], workers=1, timeout=900)
+    paths, seen = [], set()
+    for line in out.splitlines():
+        if line.startswith('<<"BEHAVIOUR"'):
+            m = re.match(r'<<"BEHAVIOUR", (".*")>>$', line.strip())
+            sj = json.loads(m.group(1))
+            if sj not in seen:
+                seen.add(sj)
+                paths.append(json.loads(sj))
+    if not paths or "No error has been found" not in out:
+        raise Inconclusive("TLC generated no directed behaviours:\n" + out[-800:])
+    return paths, tlc_stats(out)[0]
+
+
 def run_mc(run, cfgname, timeout):
     t0 = time.time()
     rc, out = run_tlc("RosmarSeq.tla", os.path.join(SPEC, cfgname), os.path.join(run, "meta_mc"),
@@ -149,10 +168,10 @@ def validate(run, trace, workers=1, timeout=3600, chunk_lines=3000, par=8):
     return fails, consumed + 1
 
 
-def execute(run, vh, paths, mode, workers=16):
-    pfile = os.path.join(run, "paths.json")
+def execute(run, vh, paths, mode, workers=16, tag=""):
+    pfile = os.path.join(run, "paths%s.json" % tag)
     json.dump(paths, open(pfile, "w"))
-    trace = os.path.join(run, "trace.ndjson")
+    trace = os.path.join(run, "trace%s.ndjson" % tag)
     rc, out = sh([vh, "seq", "-in", pfile, "-out", trace, "-mode", mode, "-aux", "-workers", str(workers),
                   "-scratch", os.path.join(run, "buckets")], timeout=3600)
     os.makedirs(os.path.join(run, "buckets"), exist_ok=True)
@@ -183,30 +202,42 @@ def run(tier, seed, vh, only_paths=None, mode=None):
         paths = only_paths
         res["mc"] = {"states": 0, "transitions": 0}
         mode = mode or "mem"
-    res["paths"] = len(paths)
-    trace, npaths, nlines, derr = execute(run, vh, paths, mode)
-    res["traces"] = npaths
-    res["lines"] = nlines
-    res["driver_errors"] = derr
-    fails, distinct = validate(run, trace)
-    if distinct - 1 != nlines:
-        raise Inconclusive("trace validation consumed %d of %d lines" % (distinct - 1, nlines))
-    out = []
-    for t in fails:
-        props = t[1]["$set"] if isinstance(t[1], dict) else []
-        tr, i, m = t[2], t[3], t[4]
-        if mode == "both":
-            pidx, pm = (tr - 1) // 2, ("mem" if tr % 2 == 1 else "disk")
-        else:
-            pidx, pm = tr - 1, mode
-        ops = paths[pidx][:i] if 0 <= pidx < len(paths) else []
-        out.append({"props": props, "trace": tr, "step": i, "mode": pm, "op": t[5], "what": t[6],
-                    "sig": signature(t), "expected": t[7], "observed": t[8], "ops": ops})
+    batches = [("", paths, mode)]
+    if only_paths is None:
+        cover, g3 = gen_cover(run, seed, 12 if tier == "quick" else 200)
+        res["gen_states"] += g3
+        res["directed_paths"] = len(cover)
+        batches.append(("_cover", cover, "mem" if tier == "quick" else "both"))
+    res["paths"] = sum(len(b[1]) for b in batches)
+    res["traces"] = res["lines"] = 0
+    res["driver_errors"] = []
+    out, traces = [], []
+    for tag, bpaths, bmode in batches:
+        trace, npaths, nlines, derr = execute(run, vh, bpaths, bmode, tag=tag)
+        traces.append(trace)
+        res["traces"] += npaths
+        res["lines"] += nlines
+        res["driver_errors"] += derr
+        fails, distinct = validate(run, trace)
+        if distinct - 1 != nlines:
+            raise Inconclusive("trace validation consumed %d of %d lines" % (distinct - 1, nlines))
+        for t in fails:
+            props = t[1]["$set"] if isinstance(t[1], dict) else []
+            tr, i, m = t[2], t[3], t[4]
+            if bmode == "both":
+                pidx, pm = (tr - 1) // 2, ("mem" if tr % 2 == 1 else "disk")
+            else:
+                pidx, pm = tr - 1, bmode
+            ops = bpaths[pidx][:i] if 0 <= pidx < len(bpaths) else []
+            out.append({"props": props, "trace": tr, "step": i, "mode": pm, "op": t[5], "what": t[6],
+                        "sig": signature(t), "expected": t[7], "observed": t[8], "ops": ops})
+    derr = res["driver_errors"]
     res["fails"] = out
     # coverage: distinct (operation, argument-class, result) triples actually executed
     cov = set()
     nsteps = 0
-    with open(trace) as fh:
+    for trace in traces:
+      with open(trace) as fh:
         for line in fh:
             e = json.loads(line)
             if e["k"] != "call":
